@@ -458,7 +458,7 @@ def pf_caps_ts(D, T=3, wacc=False):
     return Shape(pf, tg, prices)
 
 
-def pf_uncoupled(D, T=4, freq='h', unit='h', wacc=False, orderbook=None, take=None, shift_hours=0):
+def pf_uncoupled(D, T=4, freq='h', unit='h', wacc=False, orderbook=None, take=None, shift_hours=0, own_dates=False):
     """nothing couples time steps: markets on A and B, transport, multi-commodity contract (optional order book / take period)"""
     eao = lift.import_eao()
     tg = grid(T, freq, unit, start=T0 + dt.timedelta(hours=shift_hours))
@@ -467,6 +467,7 @@ def pf_uncoupled(D, T=4, freq='h', unit='h', wacc=False, orderbook=None, take=No
     assets = [mk_market(D, 'mA', nA, T, 'p', ec=True, wacc=w), mk_transport(D, 'tr', nA, nB, eff=0.5, wacc=w),
               eao.assets.MultiCommodityContract(name='mc', nodes=[nA, nB], price='r', min_cap=D('mc_min', hi=0), max_cap=D('mc_max', lo=0),
                                                 factors_commodities=[1.0, 0.5], wacc=w,
+                                                **(dict(start=pd.Timestamp(tg.start).to_pydatetime(), end=pd.Timestamp(tg.end).to_pydatetime()) if own_dates else {}),
                                                 **({} if take is None else dict(max_take=mk_take(tg, take[0], take[1], D('mc_maxtake', lo=0))))),
               mk_market(D, 'mB', nB, T, 'q', wacc=w)]
     if orderbook is not None:
@@ -520,7 +521,19 @@ def pf_alternating(D, T=4):
     return Shape(pf, tg, prices_for(D, ['p', 'q'], T))
 
 
-PORTFOLIOS = dict(names=pf_names, caps_dict=pf_caps_dict, mixed_wacc=pf_mixed_wacc, alternating=pf_alternating, uncoupled=pf_uncoupled, caps_ts=pf_caps_ts, windows=pf_windows, contract_storage=pf_contract_storage, two_node=pf_two_node, multicommodity=pf_multicommodity,
+def pf_early_node(D, T=4, win=(0, 2)):
+    """the FIRST registered node has dispatch only inside `win` (its market and the transport leaving it); the second node is active throughout"""
+    eao = lift.import_eao()
+    tg = grid(T)
+    nA, nB = nodes('A', 'B')
+    mA = mk_market(D, 'mA', nA, T, 'p', win=win, tg=tg)
+    tr = mk_transport(D, 'tr', nA, nB, eff=0.5, win=win, tg=tg)
+    mB = mk_market(D, 'mB', nB, T, 'q', ec=True)
+    st = mk_storage(D, 'sto', nB, eff=0.75)
+    return Shape(eao.portfolio.Portfolio([mA, tr, mB, st]), tg, prices_for(D, ['p', 'q'], T))
+
+
+PORTFOLIOS = dict(early_node=pf_early_node, names=pf_names, caps_dict=pf_caps_dict, mixed_wacc=pf_mixed_wacc, alternating=pf_alternating, uncoupled=pf_uncoupled, caps_ts=pf_caps_ts, windows=pf_windows, contract_storage=pf_contract_storage, two_node=pf_two_node, multicommodity=pf_multicommodity,
                   contract_take=pf_contract_take, plant=pf_plant, coarse=pf_coarse, periodic=pf_periodic,
                   orderbook=pf_orderbook, scaled=pf_scaled, structured=pf_structured, ext_transport=pf_ext_transport)
 
